@@ -128,6 +128,7 @@ func decodeNum(data []byte) interface{} {
 }
 
 type mutation struct {
+	core bool // always tried, never sampled away: a shallow member set to null or removed
 	kind string
 	desc string
 	data []byte // new content of schema.json (nil: see apply)
@@ -152,12 +153,12 @@ func structuralMutations(schema []byte) []mutation {
 			root := decodeNum(schema)
 			root = setAt(root, p, r.val, false)
 			b, _ := json.Marshal(root)
-			muts = append(muts, mutation{kind: "retype:" + r.name, desc: fmt.Sprintf("schema.json %v := %s", p, r.name), data: b})
+			muts = append(muts, mutation{core: len(p) <= 3 && r.name == "null", kind: "retype:" + r.name, desc: fmt.Sprintf("schema.json %v := %s", p, r.name), data: b})
 		}
 		root := decodeNum(schema)
 		root = setAt(root, p, nil, true)
 		b, _ := json.Marshal(root)
-		muts = append(muts, mutation{kind: "drop", desc: fmt.Sprintf("schema.json %v dropped", p), data: b})
+		muts = append(muts, mutation{core: len(p) <= 3, kind: "drop", desc: fmt.Sprintf("schema.json %v dropped", p), data: b})
 		// arrays: duplicate first element, reverse
 		if arr, ok := getAt(decodeNum(schema), p).([]interface{}); ok && len(arr) > 0 {
 			root := decodeNum(schema)
@@ -442,16 +443,22 @@ func runHostile(root string, seed int64, nBytes int) {
 			if hostileLimit > 0 {
 				lim = hostileLimit
 			}
-			whole := []mutation{}
+			whole, core, rest := []mutation{}, []mutation{}, []mutation{}
 			for _, m := range muts {
-				if m.kind == "whole" || strings.HasPrefix(m.kind, "stray") {
+				switch {
+				case m.kind == "whole" || strings.HasPrefix(m.kind, "stray"):
 					whole = append(whole, m)
+				case m.core:
+					core = append(core, m)
+				default:
+					rest = append(rest, m)
 				}
 			}
-			r.Shuffle(len(muts), func(i, j int) { muts[i], muts[j] = muts[j], muts[i] })
-			if len(muts) > lim {
-				muts = muts[:lim]
+			r.Shuffle(len(rest), func(i, j int) { rest[i], rest[j] = rest[j], rest[i] })
+			if len(rest) > lim {
+				rest = rest[:lim]
 			}
+			muts = append(core, rest...)
 			if variant == 0 {
 				muts = append(muts, whole...)
 			}
